@@ -36,7 +36,7 @@ def record(ctx, quick):
         files.append(of)
     for j in range(4):
         for mode, n in (("batch", 400 if quick else 6000), ("fuzz", 1200 if quick else 20000), ("jc", 200 if quick else 3000),
-                        ("hist", 150 if quick else 2500)):
+                        ("hist", 150 if quick else 2500), ("il", 25 if quick else 400)):
             of = ctx.path("d%s%d.json" % (mode, j))
             cmds.append(([PY, RUN, mode, str(n), of, str(ctx.seed * 8 + j)], pyenv()))
             files.append(of)
